@@ -31,6 +31,16 @@ pub const KINDS: &[&str] = &[
 /// Characters whose UTF-16 code units contain the byte 0x0A (or 0x0D): framing must not be confused by them.
 pub const TRICKY: &[&str] = &["Title:a\u{4E0A}b", "Tags:\u{010A}\u{0A0A} x", "Artist:\u{0A00}", "Source:\u{0D0A}\u{0A0D}", "Title:\u{FEFF}x", "Version:\u{200A}"];
 
+fn enum_maxlen(tier: Tier) -> u32 {
+    match tier {
+        Tier::Quick => 2,
+        Tier::Thorough => 3,
+    }
+}
+fn enum_count(tier: Tier) -> u64 {
+    (0..=enum_maxlen(tier)).map(|l| (KINDS.len() as u64).pow(l)).sum::<u64>() * 4
+}
+
 impl Scenario for C05 {
     fn id(&self) -> &'static str {
         "C05"
@@ -39,7 +49,7 @@ impl Scenario for C05 {
         "exploration"
     }
     fn rule(&self) -> String {
-        "Files are seeded sequences (length 0..40) over the property's line-kind alphabet (blank, whitespace-only, comments, version lines good/bad/suffixed/prefix-only, the 11 headers, unknown/indented/suffixed/bracket-only headers, valid and invalid records, lines with characters whose UTF-16 code units contain byte 0x0A/0x0D), LF or CRLF terminators, with or without final newline, in all four encodings, delivered through a random simulated transport (chunk schedules, first chunk < 3, Interrupted, std BufReader capacities); plus every bundled file in four encodings. The recorded (section, line) delivery history and the version given to State::create must equal the reference router's. distinct_nontrivial = distinct plan hashes with at least 2 lines.".into()
+        "(1) Exhaustive: every sequence of up to 2 (quick) / 3 (thorough) lines over the 65-kind alphabet, in each of the four encodings, one-shot delivery. (2) Files are seeded sequences (length 0..40) over the property's line-kind alphabet (blank, whitespace-only, comments, version lines good/bad/suffixed/prefix-only, the 11 headers, unknown/indented/suffixed/bracket-only headers, valid and invalid records, lines with characters whose UTF-16 code units contain byte 0x0A/0x0D), LF or CRLF terminators, with or without final newline, in all four encodings, delivered through a random simulated transport (chunk schedules, first chunk < 3, Interrupted, std BufReader capacities); plus every bundled file in four encodings. The recorded (section, line) delivery history and the version given to State::create must equal the reference router's. distinct_nontrivial = distinct plan hashes with at least 2 lines.".into()
     }
     fn assumptions(&self) -> Vec<String> {
         vec![
@@ -55,14 +65,42 @@ impl Scenario for C05 {
     }
     fn total_runs(&self, tier: Tier) -> u64 {
         self.corpus.files.len() as u64 * 4
+            + enum_count(tier)
             + match tier {
                 Tier::Quick => 150_000,
                 Tier::Thorough => 3_000_000,
             }
     }
-    fn plan(&self, seed: u64, idx: u64, _tier: Tier) -> Plan {
+    fn plan(&self, seed: u64, idx: u64, tier: Tier) -> Plan {
         let nb = self.corpus.files.len() as u64 * 4;
+        let ne = enum_count(tier);
         let mut rng = Rng::for_run(seed, "C05", idx);
+        if idx >= nb && idx < nb + ne {
+            // exhaustive: every sequence of line kinds up to the bounded length, in each of the four encodings
+            let mut k = (idx - nb) / 4;
+            let e = ((idx - nb) % 4) as usize;
+            let a = KINDS.len() as u64;
+            let mut len = 0u32;
+            loop {
+                let c = a.pow(len);
+                if k < c {
+                    break;
+                }
+                k -= c;
+                len += 1;
+            }
+            let mut s = String::new();
+            for _ in 0..len {
+                s.push_str(KINDS[(k % a) as usize]);
+                s.push('\n');
+                k /= a;
+            }
+            let mut p = Plan::new("C05", "enumerated", seed, idx);
+            p.data = encode_text(&s, ENCS[e]);
+            p.set("enc", e as i64);
+            // one-shot delivery for the enumerated part (delivery is varied in the seeded part)
+            return p;
+        }
         if idx < nb {
             let f = (idx / 4) as usize;
             let mut p = Plan::new("C05", "bundled", seed, idx);
